@@ -1,4 +1,5 @@
 """C03 - change notifications fire exactly once, iff the decoded value changed."""
+import asyncio
 import importlib
 
 import packs
@@ -15,7 +16,7 @@ MANIFEST = dict(
          "silence when only foreign bits change; over any history of watch/unwatch/patch the observer list never holds duplicates and every call "
          "carries old != new (induction). Tie: translator for the intersection filter + differential correspondence of both real structure classes "
          "(GeckoStructure, GeckoAsyncStructure) with recording observers against the model driver."
-         ' Since session 3: histories include bound-method observers (equal, not identical), wholesale loads (set_status_block) followed by patches, and updates that flip the temperature unit under watched temperature items. State inventory (notification_state_inventory): status_block_changed and the value decoders write no attribute; both structures write only the block. Observers that change the registration list from inside their callback (unwatch themselves or others, unwatch_all, watch): dispatch model Model/ObserverDispatch.lean, theorems C03.Reentrant.*, real structures of both classes. Session 5: notification_walk_keeps_no_state (Observable._on_change / watch / unwatch assign nothing); the smallest change of a stored number (one or two steps, whole field / low byte / window), which a presentation coarser than the stored reading would swallow.',
+         ' Since session 3: histories include bound-method observers (equal, not identical), wholesale loads (set_status_block) followed by patches, and updates that flip the temperature unit under watched temperature items. State inventory (notification_state_inventory): status_block_changed and the value decoders write no attribute; both structures write only the block. Observers that change the registration list from inside their callback (unwatch themselves or others, unwatch_all, watch): dispatch model Model/ObserverDispatch.lean, theorems C03.Reentrant.*, real structures of both classes. Session 5: notification_walk_keeps_no_state (Observable._on_change / watch / unwatch assign nothing); the smallest change of a stored number (one or two steps, whole field / low byte / window), which a presentation coarser than the stored reading would swallow. Round 14: one GeckoAsyncSpa object connected, disconnected and connected again (real `_connect` wiring); the spa changes watched items on every connection.',
     note="Trusted: Lean kernel; translator; correspondence harness. Temperature items: the model compares stored words, the code compares values converted "
          "with the current unit (equivalent; the conversion itself is C14). An observer that raises aborts the remaining notifications (Python semantics) - excluded. "
          "Patches running past byte 1023 are outside the hypotheses (the real code would grow the block).",
@@ -484,6 +485,10 @@ def run(ctx):
     except Exception as e:  # noqa
         ctx.obligation_broken("harness:reentrant-observers", f"{type(e).__name__}: {e}")
     try:
+        check_reconnected_object(ctx)
+    except Exception as e:  # noqa
+        ctx.obligation_broken("harness:reconnected-object", f"{type(e).__name__}: {e}")
+    try:
         model = Driver("Driver/C03.lean").run(lines)
     except DriverFailure as e:
         ctx.obligation_broken("driver:C03", e)
@@ -510,7 +515,101 @@ def run(ctx):
     ctx.assumptions += ["observers do not raise", "temperature payloads are compared as stored words (conversion is C14)"]
 
 
+def run_reconnected_object(n_connections=3):
+    """ONE `GeckoAsyncSpa` object connected, disconnected and connected again (its public connect / disconnect, the real `_connect`
+    wiring) against the real simulator; on every connection the client watches a few items, the spa changes them one at a time and
+    reports each change. Returns per connection the list of (changed item, calls seen) records."""
+    import fakenet
+    import vloop
+    from geckolib.async_spa import GeckoAsyncSpa
+    from geckolib.async_spa_descriptor import GeckoAsyncSpaDescriptor
+    from geckolib.async_tasks import AsyncTasks
+    from props import c10
+    out = []
+
+    async def body(loop):
+        sim = fakenet.make_sim(c10.SNAP)
+        net = fakenet.Network(loop, sim, phases=[], seed=1)
+        loop.network = net
+
+        async def on_event(*a, **k):
+            pass
+        tm = AsyncTasks()
+        async with tm:
+            spa = GeckoAsyncSpa(b"IOSclient-uuid", GeckoAsyncSpaDescriptor(c10.IDENT.encode(), "Spa", fakenet.SIM_ADDR), tm, on_event)
+            for conn in range(n_connections):
+                await asyncio.wait_for(spa.connect(), 300)
+                await asyncio.sleep(1.0)
+                rec = {"connection": conn + 1, "connected": spa.is_connected, "changes": []}
+                if not spa.is_connected:
+                    out.append(rec)
+                    break
+                tags = [t for t, a in sim.structure.accessors.items() if a.read_write is not None and a.type == "Enum" and a.items
+                        and len([x for x in a.items if x]) >= 2 and t.startswith("Ud") and t in spa.accessors][:4]
+                calls = []
+                obs = {}
+                for t in tags:
+                    def cb(sender, old, new, _t=t):
+                        calls.append((_t, str(old), str(new), str(spa.accessors[_t].value)))
+                    obs[t] = cb
+                    spa.accessors[t].watch(cb)
+                for t in tags:
+                    sa = sim.structure.accessors[t]
+                    labs = [x for x in sa.items if x]
+                    old = sa.value
+                    new = labs[0] if old != labs[0] else labs[1]
+                    import builtins
+                    real_print = builtins.print
+                    builtins.print = lambda *a, **k: None
+                    sim._send_structure_change = True
+                    try:
+                        sa.value = new
+                    finally:
+                        sim._send_structure_change = False
+                        builtins.print = real_print
+                    queued = list(sim._socket._send_handlers)
+                    sim._socket._send_handlers.clear()
+                    live = [x for x in net.transports if not x.closed]
+                    for hdl, _d in queued:
+                        if live:
+                            net.push(live[-1], hdl.send_bytes)
+                    n0 = len(calls)
+                    await asyncio.sleep(1.0)
+                    rec["changes"].append({"item": t, "old": str(old), "new": str(new), "calls": [list(c) for c in calls[n0:]]})
+                for t in tags:
+                    spa.accessors[t].unwatch(obs[t])
+                out.append(rec)
+                await spa.disconnect()
+                await asyncio.sleep(1.0)
+    vloop.run_virtual(body, stable=True)
+    return out
+
+
+def check_reconnected_object(ctx):
+    recs = run_reconnected_object()
+    for r in recs:
+        inp = {"kind": "reconnected-object", "connection": r["connection"]}
+        ctx.count("evaluations", max(1, len(r.get("changes", []))))
+        ctx.hist("reconnected_object", f"connection-{r['connection']}:{'ok' if r['connected'] else 'not-connected'}")
+        if not r["connected"]:
+            ctx.violation(f"reconnected-object:connection-{r['connection']}:not-connected", inp, "the same spa object connects again", "is_connected is False")
+            break
+        for ch in r["changes"]:
+            want = [[ch["item"], ch["old"], ch["new"], ch["new"]]]
+            if ch["calls"] != want:
+                ctx.violation(f"reconnected-object:connection-{r['connection']}:notifications", dict(inp, item=ch["item"]),
+                              {"calls (item, old, new, value read in the callback)": want}, {"calls": ch["calls"][:5]})
+                return
+    if len(recs) < 2:
+        ctx.obligation_broken("harness:reconnected-object", f"only {len(recs)} connection(s) ran")
+
+
 def replay(inp):
+    if inp.get("kind") == "reconnected-object":
+        from common import Ctx
+        c = Ctx("C03", "quick", 0)
+        check_reconnected_object(c)
+        return bool(c.violations), c.violations[0]["observed"] if c.violations else "every change notified exactly once on every connection"
     if inp.get("kind") == "reentrant":
         reacts = {int(k): tuple(v) for k, v in inp["reactions"].items()}
         got = run_reentrant(inp["structure"], inp["observers"], reacts)
